@@ -17,6 +17,7 @@ import TypedpyModel.Lemmas.SchemaToCode
 import TypedpyModel.Lemmas.SchemaEmit
 import TypedpyModel.Lemmas.DefOrder
 import TypedpyModel.Lemmas.TextClean
+import TypedpyModel.Lemmas.CodeExact
 namespace Typedpy.C09
 open Typedpy Typedpy.PyLex
 
@@ -439,6 +440,88 @@ theorem counterexample_dict_order_forward_ref :
     topoOrder [("A", .obj [("x", .ref "B")] [] (some ["x"]) true),
                ("B", .obj [("y", .num true none none none false)] [] (some ["y"]) true)] = ["B", "A"] :=
   dict_order_counterexample
+
+/-! ## exactness: the generated field accepts what the schema admits
+
+  `CodeExact.scalarDoc` is the JSON document of a scalar schema, `jsV` the draft-4 validator model of
+  C08 (`Spec/JsValid.lean`), `deser` / `validate` the Deserializer and constructor models of C06 / C01
+  applied to the generated declaration `schemaToDecl`. -/
+
+open Typedpy.CodeExact Typedpy.Sch in
+/-- on the exact scalar sub-fragment the schema that `structure_to_schema` exports for the generated
+    field is the source schema itself (document level, both spellings of `multipleOf`) -/
+theorem exported_schema_is_source (fx : Bool) (ρ : String → FieldDecl) (s : Schema)
+    (h : exactSchema s = true) : emit fx (schemaToDecl ρ s) = scalarDoc fx s :=
+  emit_scalar fx ρ s h
+
+open Typedpy.CodeExact Typedpy.Sch in
+/-- PARTIAL (one direction, scalars): for EVERY schema of the exact scalar sub-fragment (integer with
+    bounds / positive multiplesOf, number with bounds, `exclusiveMaximum` next to `maximum`, string with
+    lengths and a start-anchored pattern, boolean, non-empty enum of literals) and EVERY document value:
+    if the draft-4 validator admits the value against the source schema, the generated field accepts it
+    (deserialization succeeds and the constructor's validation accepts the result).  `hS`: the
+    validator's regex oracle agrees with `re.match` on start-anchored patterns. -/
+theorem admitted_is_accepted_partial (O : Oracles) (R : String → PyVal → Bool) (S : String → String → Bool)
+    (hS : ∀ p t, startAnchored p = true → S p t = true → O.reMatch p t = true)
+    (opts : DeserOpts) (ign : Bool) (ρ : String → FieldDecl) (s : Schema) (v : PyVal)
+    (hs : exactSchema s = true) (h : jsV R S (scalarDoc true s) v = true) :
+    ∃ y y', deser O opts ign (schemaToDecl ρ s) v = .ok y ∧ validate O (schemaToDecl ρ s) y = .ok y' := by
+  rw [← emit_scalar true ρ s hs] at h
+  exact exact_scalar O R S hS opts ign _ v (exactScalar_of ρ s hs) h
+
+open Typedpy.CodeExact Typedpy.Sch in
+/-- the full statement: the generated field accepts a document iff the schema admits it -/
+def exactness_statement : Prop :=
+  ∀ (s : Schema) (v : PyVal), exactSchema s = true →
+    (acceptsB (schemaToDecl CodeExact.rho0 s) v = true ↔ jsV R0 S0 (scalarDoc true s) v = true)
+
+open Typedpy.CodeExact Typedpy.Sch in
+/-- finding `exact:bool-as-number`, kernel-checked: an integer field accepts JSON `true` -/
+theorem counterexample_bool_as_number :
+    jsV R0 S0 (scalarDoc true (.num true none none none false)) (.bool true) = false ∧
+    acceptsB (schemaToDecl CodeExact.rho0 (.num true none none none false)) (.bool true) = true := by decide
+
+open Typedpy.CodeExact Typedpy.Sch in
+/-- finding `exact:bool-string`: a boolean field accepts the string `'True'` -/
+theorem counterexample_bool_string :
+    jsV R0 S0 (scalarDoc true .bool) (.str "True") = false ∧
+    acceptsB (schemaToDecl CodeExact.rho0 .bool) (.str "True") = true := by decide
+
+open Typedpy.CodeExact Typedpy.Sch in
+/-- finding `exact:short-positional-array`: draft-4 admits an array shorter than the positional
+    `items`, the generated `Array(items=[...])` rejects it -/
+theorem counterexample_short_positional_array :
+    jsV R0 S0 (emit true (schemaToDecl CodeExact.rho0
+        (.arrPos [.num true none none none false, .str none none none] true {}))) (.list [.int 1]) = true ∧
+    acceptsB (schemaToDecl CodeExact.rho0
+        (.arrPos [.num true none none none false, .str none none none] true {})) (.list [.int 1]) = false := by
+  decide
+
+open Typedpy.CodeExact Typedpy.Sch in
+/-- finding `exact:null`: `null` for a non-required property of a nested object is accepted (dropped),
+    the validator rejects it -/
+theorem counterexample_null_optional :
+    jsV R0 S0 (emit true (schemaToDecl CodeExact.rho0
+        (.obj [("b", .num true none none none false), ("t", .num false none none none false)] [] (some ["b"]) true)))
+      (.dict [(.str "b", .int 5), (.str "t", .none)]) = false ∧
+    acceptsB (schemaToDecl CodeExact.rho0
+        (.obj [("b", .num true none none none false), ("t", .num false none none none false)] [] (some ["b"]) true))
+      (.dict [(.str "b", .int 5), (.str "t", .none)]) = true := by
+  decide
+
+theorem exactness_statement_false : ¬ exactness_statement := fun h =>
+  absurd ((h (.num true none none none false) (.bool true) (by decide)).1 counterexample_bool_as_number.2)
+    (by rw [counterexample_bool_as_number.1]; decide)
+
+open Typedpy.CodeExact Typedpy.Sch in
+/-- non-vacuity: an integer schema with bounds and multiplesOf admits 6, and the generated field
+    accepts it -/
+theorem admitted_is_accepted_example :
+    exactSchema (.num true (some 3) (some ⟨0, 1⟩) (some ⟨10, 1⟩) true) = true ∧
+    jsV R0 S0 (scalarDoc true (.num true (some 3) (some ⟨0, 1⟩) (some ⟨10, 1⟩) true)) (.int 6) = true ∧
+    acceptsB (schemaToDecl CodeExact.rho0 (.num true (some 3) (some ⟨0, 1⟩) (some ⟨10, 1⟩) true)) (.int 6) = true ∧
+    jsV R0 S0 (scalarDoc true (.num true (some 3) (some ⟨0, 1⟩) (some ⟨10, 1⟩) true)) (.int 10) = false := by
+  decide
 
 /-! ## non-vacuity -/
 
